@@ -1041,6 +1041,9 @@ func (in *Interp) execStmt(fr *frame, n *a.Node) ctl {
 // block the variable is a fresh buffer over the given slice (ri = 0, wi = len
 // for a reader; wi = 0 for a writer), afterwards it is what it was before.
 func (in *Interp) execIOManip(fr *frame, m *a.IOManip) ctl {
+	if m.Keyword() == t.IDIOLimit {
+		return in.execIOLimit(fr, m)
+	}
 	if m.Keyword() != t.IDIOBind {
 		in.unsupported("io manipulation " + in.str(m.Keyword()))
 	}
@@ -1073,6 +1076,27 @@ func (in *Interp) execIOManip(fr *frame, m *a.IOManip) ctl {
 		}
 	}
 	fr.locals[io.Ident()] = old
+	return c
+}
+
+// execIOLimit implements io_limit for an io_reader: inside the block at most
+// 'limit' more bytes are visible; the limited view counts as closed only if the
+// underlying reader is closed and the limit hides nothing. Afterwards the
+// reader has its own end and closed-ness again (what was consumed stays consumed).
+func (in *Interp) execIOLimit(fr *frame, m *a.IOManip) ctl {
+	v := in.eval(fr, m.IO())
+	if v.K != KIO || v.IO == nil || v.IO.Writer {
+		in.unsupported("io_limit of " + m.IO().Str(in.P.TM))
+	}
+	b := v.IO
+	lim := in.eval(fr, m.Arg1())
+	wi0, closed0 := b.Wi, b.Closed
+	if lim.N.IsInt64() && lim.N.Int64() < int64(b.Wi-b.Ri) {
+		b.Wi = b.Ri + int(lim.N.Int64())
+	}
+	b.Closed = closed0 && wi0 <= b.Wi
+	c := in.execBlock(fr, m.Body())
+	b.Wi, b.Closed = wi0, closed0
 	return c
 }
 
